@@ -534,3 +534,52 @@ func VX_C18_SlotWhileClosing(args []int) {
 	vxAssert(admitted == 1, "once the session has ended its slot is usable again, exactly once")
 	vxCover("c18.slot-while-closing")
 }
+
+func init() { vxRegister("VX_C18_LimitHistory", VX_C18_LimitHistory) }
+
+// VX_C18_LimitHistory: solver-chosen histories of k events over {a connection
+// arrives, the oldest live session is closed, the limit is switched off, the
+// limit is set to 1, the limit is set to 2}, starting from limit 1. Whenever a
+// limit N is in force, a newcomer is admitted only if that leaves no more than
+// N live sessions; a rejected connection is closed. args: k
+func VX_C18_LimitHistory(args []int) {
+	o := New(LimitConfig{MaxConn: 1})
+	p := erpc.NewPeer(erpc.PeerConfig{}, o)
+	var live []erpc.Session
+	limit := 1
+	n := 0
+	for step := 0; step < args[0]; step++ {
+		switch vxChoose("ev", 5) {
+		case 0:
+			c := newVxConn("srv:1", fmt.Sprintf("cli:%d", n))
+			n++
+			s, st := p.ServeConn(c)
+			vxWaitIdle()
+			if st.OK() {
+				live = append(live, s)
+				vxAssert(limit == 0 || len(live) <= limit, "a newcomer is admitted only while that leaves no more than the limit in force of live sessions (whatever limits were in force before)")
+			} else {
+				vxAssert(limit != 0, "without a limit every connection is admitted")
+				vxAssert(c.isClosed(), "a rejected connection is closed")
+				vxAssert(len(live) >= limit, "a connection is rejected only when the limit is reached")
+			}
+		case 1:
+			if len(live) > 0 {
+				live[0].Close()
+				live = live[1:]
+				vxWaitIdle()
+			}
+		case 2:
+			limit = 0
+			o.Update(LimitConfig{MaxConn: 0})
+		case 3:
+			limit = 1
+			o.Update(LimitConfig{MaxConn: 1})
+		case 4:
+			limit = 2
+			o.Update(LimitConfig{MaxConn: 2})
+		}
+	}
+	vxAssert(p.CountSession() == len(live), "[C07] the index holds exactly the live sessions")
+	vxCover("c18.limit-history")
+}
